@@ -29,7 +29,7 @@ def run(ctx):
     for ci in range(ctx.n(7)):
         case = exec_mon.DualCase(rng, "c09:%d:%d:%d" % (ctx.seed, ctx.shard, ci), log=log,
                                  schema_kw={"features": {"mutation": True}, "size": rng.choice([1, 2, 3])},
-                                 world_kw={"p_error": 0.12, "p_null_in_nonnull": 0.04})
+                                 world_kw={"p_error": 0.12, "p_null_in_nonnull": 0.04, "p_type_error": 0.5})
         try:
             case.schema_sync.validate()
         except Exception as e:
@@ -46,6 +46,8 @@ def run(ctx):
             if ref[0] != "ok":
                 ctx.abstain(ref[0])
                 continue
+            if ref[3].type_failures:
+                ctx.count("mutations_with_failing_type_resolver")
             top_keys = list(ref[1].keys())
             ctx.count("mutations")
             ctx.count("top_level_fields", len(top_keys))
